@@ -22,6 +22,9 @@ if r.returncode != 0:
 n = 400 if tier == "quick" else 4000
 r = subprocess.run([B + "/c16_unit", str(int(seed) * 7919 + 13), str(n)], capture_output=True, text=True, timeout=120)
 lines = [l for l in r.stdout.splitlines() if l.count("|") == 5]
+if r.returncode == 3:
+    fails.append({"kind": "monitor", "key": "C16/string-sink/constructor-touches-string", "what": "reproc_sink_string changed the caller's string when the sink was made (a non-empty string must be appended to)", "replay": {"stderr": r.stderr[-300:], "seed": seed}})
+    done()
 if r.returncode != 0 or not lines:
     fails.append({"kind": "monitor", "key": "C16/string-sink/crash", "what": "the string sink crashed (exit %s)" % r.returncode, "replay": {"stderr": r.stderr[-500:]}})
     done()
